@@ -6,10 +6,25 @@ TECH = 'contract-based deductive verification: clang AST of /repo lowered to C e
 NOTE = ('Trusted: clang 14 AST, tools/cxx2c.py lowering (classes->structs, refs->pointers, RAII dtors explicit), CBMC 6.11 + DFCC + MiniSat, '
         'callback/logger stubs as the model of user code, bindings between symbolic constants checked on the witness only. See evidence assumptions.')
 CLAIMED = {
- 'C13': dict(text='Proof for every stream capacity 1..255, every cursor, every field width 1..32 (three Item types lowered separately) and every value: write<N> advances the cursor by exactly N, alters only the bits of its own field, keeps bits past the cursor zero; read<N> returns exactly the bits at the cursor; constructors, buffer clear/==/!=; bitWidth() for every 32-bit argument and its sufficiency for state counts 1..255 (lemma over the contract). Chunk loops unwound 6x with unwinding assertions (complete by field width). Sequences follow by induction from the frame clauses.',
-             ref='4 (C13)'),
- 'C20': dict(text='Proof, for every capacity 1..255 (symbolic) and every index/bit (ghost index): per-operation postconditions of BitArrayT / StaticArrayT / DynamicArrayT against the set / array model, frame clauses (an operation on one index does not disturb another), padding-bits invariant; byte loops closed by loop contracts. Histories follow by induction over operations.',
-             ref='4 (C20)'),
+ 'C01': dict(ref='4 (C01)', text='Proof: the enter/exit protocol is a ghost automaton (g_entered, g_root_entered) whose transitions are preconditions of every lifecycle callback stub; the machine invariant (one active state = entered state, nothing staged) is re-established by every public operation under contract (R_ initialEnter/finalExit/processRequest/update/react/replayTransition/load, RV_ load) for every state count (CS_ split induction), substitution limit and callback behaviour.'),
+ 'C02': dict(ref='4 (C02)', text='Proof: request makers have the registry outside their frame and overwrite the single request; R_::processTransitions carries a loop invariant "accepted transition == most recent request not cancelled (ghost survivor), staged destination == its destination" with a decreasing variant; postcondition active == survivor destination reached by exit/enter or reenter, unchanged without survivor. Unbounded in N, L and callback behaviour.'),
+ 'C03': dict(ref='4 (C03)', text='Proof: guard order and short-circuit as call-site preconditions (!cancelled when consulted), guard evaluation has registry and lifecycle marks outside its frame, veto honoured in every round by the loop invariant of C02; replay/load units have no guard mark in their frame.'),
+ 'C04': dict(ref='4 (C04)', text='Proof: loop variant LIMIT - i and ghost round counter (rounds <= LIMIT, activation <= LIMIT + 1), left-over request stays outstanding exactly as issued.'),
+ 'C05': dict(ref='4 (C05)', text='Proof: per-kind delivery timestamps (ghost clock) give exactly-once and the fixed order root/active/active/root across R_ -> C_ -> CS_ -> S_; stubs require the addressed state to be the active one and the event pointer to be the caller\'s; query has nothing of the machine in its frame.'),
+ 'C06': dict(ref='4 (C06)', text='Proof: every control accessor equals the core field it exposes, isActive(id) == (active == id) for all ids in every flavour, scoped origin set/restored, requests record the caller as origin.'),
+ 'C07': dict(ref='4 (C07)', text='Proof for the witness payload type (int, all values): constructors copy the payload bytes, request -> pending -> current -> previous are struct copies tracked by ghost copies (g_lastreq, g_surv); bounded in payload type. Known finding F9 (duplicate request dropped) is reported, not hidden.'),
+ 'C08': dict(ref='4 (C08)', text='Bounded proof: whole plan walk of FullControlT::updatePlan from any well-formed plan against the statement as a relation (capacity <= 4, states <= 8), status bits and reports for all N.'),
+ 'C09': dict(ref='4 (C09)', text='Bounded proof (capacity <= 4): outcome branches of updatePlan and C_::deepUpdatePlans, planExists initialised and cleared.'),
+ 'C10': dict(ref='4 (C10)', text='Inductive proof over histories with an executable representation invariant of TaskListT / PlanT; quick tier bounded in capacity (<= 5).'),
+ 'C11': dict(ref='4 (C11)', text='Proof: previousTransition == ghost survivor after every processing step and after activation; replayTransition has no guard in its frame; invalid id changes nothing.'),
+ 'C12': dict(ref='4 (C12)', text='Proof for every state count 1..255: save writes the canonical encoding within 1 + bitWidth(N) bits and nothing of the machine; load decodes it and performs exactly the needed lifecycle step, no guards; canonicity lemma.'),
+ 'C13': dict(ref='4 (C13)', text='Proof for every stream capacity 1..255, cursor, field width 1..32 (three Item types) and value: write/read/ctors/buffer ops, bitWidth() for every 32-bit argument and its sufficiency. Chunk loops unwound 6x with unwinding assertions (complete by field width).'),
+ 'C14': dict(ref='4 (C14)', text='Proof by induction over the state list: the CS_ inner node with symbolic offset and size against the same contract for its halves, the leaf against S_; initial state 0; witness skeleton check for the template instantiation structure. access<T>() identity assumed.'),
+ 'C15': dict(ref='4 (C15)', text='Proof for k = 3 injections (and k = 0): injection timestamps strictly ordered before / after the state\'s own callback on the pre / post side. Bounded in k.'),
+ 'C16': dict(ref='4 (C16)', text='Proof: with a logger exactly one method record as the first tick of every delivery, none without; one record with the right arguments per changeTo/changeWith/cancel/succeed/fail; all other proofs hold for logger NULL or not (non-interference).'),
+ 'C17': dict(ref='4 (C17)', text='Bounded proof (capacity <= 4): CoreT constructed over arbitrary memory has every field determined; copy constructor equals the source field by field.'),
+ 'C18': dict(ref='4 (C18)', text='Proof of memory/arithmetic safety obligations of every unit of C01..C20 (189 units); alignment from the real compilers\' layout (known finding F5); allocation freedom as a static fact.'),
+ 'C20': dict(ref='4 (C20)', text='Proof, for every capacity 1..255 (symbolic) and every index/bit (ghost index): per-operation postconditions of BitArrayT / StaticArrayT / DynamicArrayT against the set / array model, frames, padding invariant; loops closed by loop contracts.'),
 }
 NA = {
  'C19': 'not a pre/post-condition of any function: compile matrix over 2^8 switch combinations x 4 standards x 2 compilers and byte-equality of a generated file; needs a build matrix / differential runs, which is a different technique (DESIGN.md section 6)',
